@@ -769,6 +769,17 @@ def run(ctx):
             G.mux_family(ctx.rng, r.apply)
             ctx.stats["stream:mux_family:histories"] += 1
             check_history(ctx, r, "mux_family")
+    index_reuse_stream(ctx)
+
+
+def index_reuse_stream(ctx):
+    for _ in range(ctx.n(15, 200)):
+        r = Run16(G.gen_init(ctx.rng, G.Cfg()))
+        r.deleted = []
+        if r.init_outcome == "ok":
+            G.index_reuse_family(ctx.rng, r.apply)
+            ctx.stats["stream:index_reuse:histories"] += 1
+            check_history(ctx, r, "index_reuse")
 
 
 def search(ctx):
